@@ -1,4 +1,4 @@
 Require Extraction.
 Require Import ExtrOcamlBasic.
-From Phil Require Import Base Tokenizer Tree Parser Show ShowProofs EntryParse.
-Extraction "Parse.ml" run_parse run_show run_wfshow.
+From Phil Require Import Base Tokenizer Tree Parser Show ShowProofs WordsRoundtrip TreeRoundtrip EntryParse.
+Extraction "Parse.ml" run_parse run_show run_wfshow run_dtreeok.
